@@ -35,7 +35,19 @@ import (
 
 type c03Fault struct {
 	// clean | drop-data | delay-data | dup-data | delay-close | drop-close | dup-close |
-	// drop-data+drop-close | latency
+	// drop-data+drop-close | latency |
+	// stall      (UDP) from the moment the writer starts its last Write nothing is delivered in either
+	//            direction for DelayMs, then everything, in order (a delay spike on a path that was fast
+	//            before: the window cannot open, part of the last chunk is still queued at Close);
+	// tcp-stall  (TCP) the closing direction of the connection makes no progress until DelayMs after a
+	//            loop of 1500 one-millisecond sleeps started at the Close() call has finished (a peer that
+	//            stopped draining its receive buffer for longer than Close's bounded wait);
+	// drop-inflight (UDP) the first data datagram transmitted for the first time after Write has returned
+	//            is lost (with CloseAfterFault: Close is called while it is in flight);
+	// idle       (UDP) every transmission of data segment Seq and every close request of the closing
+	//            direction is lost, for ever: the reader hears nothing any more
+	// tcp-reset  (TCP, characterisation only — not a fault the property quantifies over) the connection is
+	//            reset when the closing direction has carried Seq bytes
 	Kind    string `json:"kind"`
 	Seq     int    `json:"seq"`      // sequence number (closing direction) whose FIRST transmission is hit
 	DelayMs int    `json:"delay_ms"` // for delay-* and latency
@@ -52,29 +64,39 @@ type c03Case struct {
 	Fault         c03Fault        `json:"fault"`
 	MaxRead       int             `json:"max_read"`
 	BoundMs       int             `json:"bound_ms"`
+	// Warm > 0: the first Warm bytes of d are written first and the writer pauses 150 ms (the path gets
+	// round-trip samples, the congestion window opens) before it writes the rest and closes
+	Warm int `json:"warm,omitempty"`
+	// CloseAfterFault: Close() is called as soon as the addressed datagram has been emitted and hit by
+	// the fault (at most 200 ms after Write returned) instead of immediately — the datagram is in flight
+	// at Close time
+	CloseAfterFault bool `json:"close_after_fault,omitempty"`
 }
 
 type c03Outcome struct {
-	Setup      string
-	Got        int
-	Mismatch   int    // -1 = none
-	Final      string // EOF | blocked | err:<text> | no-session
-	Written    int
-	WriteErr   string
-	CloseErr   string
-	closeCall  int // len(Net.Datagrams) when Close() was called / returned (UDP)
-	closeRet   int
-	closeRetAt time.Duration
-	closeTook  time.Duration
-	elapsed    time.Duration
-	world      *sim.World
+	Setup       string
+	Got         int
+	Mismatch    int    // -1 = none
+	Final       string // EOF | blocked | err:<text> | no-session
+	Written     int
+	WriteErr    string
+	CloseErr    string
+	closeCall   int // len(Net.Datagrams) when Close() was called / returned (UDP)
+	closeRet    int
+	closeRetAt  time.Duration
+	closeCallAt time.Duration
+	finalAt     time.Duration // when the reader saw EOF / its error
+	tap         *c03StreamTap
+	closeTook   time.Duration
+	elapsed     time.Duration
+	world       *sim.World
 }
 
 const c03ServerAddr = "10.8.0.1:8964"
 
 // c03Plan builds the fault plan. It decodes every datagram of the closing direction with the
 // reference codec to find the addressed segment.
-func c03Plan(k c03Case, keys [][]byte, line *c03DelayLine, closeReturned *atomic.Bool) func(d *simnet.Datagram) []simnet.Delivery {
+func c03Plan(k c03Case, keys [][]byte, line *c03DelayLine, closeReturned *atomic.Bool, closeAt *atomic.Int64, faultHit *atomic.Bool, armed *atomic.Bool) func(d *simnet.Datagram) []simnet.Delivery {
 	var mu sync.Mutex
 	seenSeq := map[uint32]bool{}
 	closeSeen := 0
@@ -92,6 +114,21 @@ func c03Plan(k c03Case, keys [][]byte, line *c03DelayLine, closeReturned *atomic
 			line.push(d, delay)
 			return nil
 		}
+		if f.Kind == "stall" {
+			// nothing is delivered from the moment the last Write starts until `delay` later; from then on
+			// everything goes through the FIFO line so that nothing overtakes what was held back
+			ca := closeAt.Load()
+			if ca == 0 {
+				return []simnet.Delivery{{}}
+			}
+			d.Fate = "stall"
+			wait := time.Until(time.Unix(0, ca).Add(delay))
+			if wait < 0 {
+				wait = 0
+			}
+			line.push(d, wait)
+			return nil
+		}
 		c2s := d.To == c03ServerAddr
 		if c2s == k.ServerCloses { // not the closing direction
 			return []simnet.Delivery{{}}
@@ -101,8 +138,30 @@ func c03Plan(k c03Case, keys [][]byte, line *c03DelayLine, closeReturned *atomic
 			return []simnet.Delivery{{}}
 		}
 		numbered := seg.IsData() || seg.Proto == wire.OpenSessionRequest || seg.Proto == wire.OpenSessionResponse
+		if f.Kind == "idle" {
+			if (numbered && int(seg.Seq) == f.Seq) || seg.Proto == wire.CloseSessionRequest {
+				d.Fate = "drop"
+				faultHit.Store(true)
+				return nil
+			}
+			return []simnet.Delivery{{}}
+		}
+		if f.Kind == "drop-inflight" {
+			// the first data datagram that is transmitted for the first time after Write returned
+			if numbered && !seenSeq[seg.Seq] && armed.Load() && !faultHit.Load() {
+				seenSeq[seg.Seq] = true
+				d.Fate = "drop"
+				faultHit.Store(true)
+				return nil
+			}
+			if numbered {
+				seenSeq[seg.Seq] = true
+			}
+			return []simnet.Delivery{{}}
+		}
 		if numbered && int(seg.Seq) == f.Seq && !seenSeq[seg.Seq] {
 			seenSeq[seg.Seq] = true
+			faultHit.Store(true)
 			switch f.Kind {
 			case "drop-data", "drop-data+drop-close":
 				d.Fate = "drop"
@@ -205,11 +264,20 @@ func c03Exec(k c03Case) *c03Outcome {
 		return o
 	}
 	o.world = w
-	var closeReturned atomic.Bool
+	var closeReturned, faultHit, armed atomic.Bool
+	var closeAt atomic.Int64
 	if k.UDP && k.Fault.Kind != "clean" && k.Fault.Kind != "" {
 		line := newC03DelayLine(w.Net)
 		defer line.stop()
-		w.Net.Plan = c03Plan(k, w.AllKeys(), line, &closeReturned)
+		w.Net.Plan = c03Plan(k, w.AllKeys(), line, &closeReturned, &closeAt, &faultHit, &armed)
+	}
+	if !k.UDP {
+		o.tap = newC03StreamTap(w.Net.T0(), !k.ServerCloses, k.Fault.Kind == "tcp-stall")
+		if k.Fault.Kind == "tcp-reset" {
+			o.tap.resetAt = int64(k.Fault.Seq)
+			o.tap.onReset = func() { w.Fault() }
+		}
+		w.Net.StreamFilter = o.tap.filter
 	}
 	bound := time.Duration(k.BoundMs) * time.Millisecond
 	if bound <= 0 {
@@ -245,13 +313,39 @@ func c03Exec(k c03Case) *c03Outcome {
 
 	// writeAndClose is what the closing application does
 	writeAndClose := func(conn net.Conn) {
-		n, err := conn.Write(data)
-		o.Written = n
+		rest := data
+		if k.Warm > 0 && k.Warm < len(data) {
+			n, err := conn.Write(data[:k.Warm])
+			o.Written = n
+			if err != nil {
+				o.WriteErr = err.Error()
+				return
+			}
+			time.Sleep(150 * time.Millisecond)
+			rest = data[k.Warm:]
+		}
+		if k.Fault.Kind == "stall" {
+			closeAt.Store(time.Now().UnixNano()) // the plan's stall starts here
+		}
+		n, err := conn.Write(rest)
+		o.Written += n
 		if err != nil {
 			o.WriteErr = err.Error()
 		}
+		if k.CloseAfterFault {
+			armed.Store(true)
+			for dl := time.Now().Add(200 * time.Millisecond); !faultHit.Load() && time.Now().Before(dl); {
+				time.Sleep(200 * time.Microsecond)
+			}
+		}
 		o.closeCall = nDatagrams()
 		tc := time.Now()
+		o.closeCallAt = tc.Sub(w.Net.T0())
+		closeAt.CompareAndSwap(0, tc.UnixNano())
+		if o.tap != nil {
+			delay := time.Duration(k.Fault.DelayMs) * time.Millisecond
+			o.tap.closeCalled(delay)
+		}
 		if err := conn.Close(); err != nil {
 			o.CloseErr = err.Error()
 		}
@@ -264,6 +358,7 @@ func c03Exec(k c03Case) *c03Outcome {
 	type rres struct {
 		got, mismatch int
 		final         string
+		at            time.Duration
 	}
 	readAll := func(conn net.Conn, skip int, out chan<- rres) {
 		r := rres{mismatch: -1}
@@ -292,6 +387,7 @@ func c03Exec(k c03Case) *c03Outcome {
 				} else {
 					r.final = "err:" + err.Error()
 				}
+				r.at = time.Since(w.Net.T0())
 				out <- r
 				return
 			}
@@ -350,7 +446,7 @@ func c03Exec(k c03Case) *c03Outcome {
 	}
 	select {
 	case r := <-res:
-		o.Got, o.Mismatch, o.Final = r.got, r.mismatch, r.final
+		o.Got, o.Mismatch, o.Final, o.finalAt = r.got, r.mismatch, r.final, r.at
 	case <-time.After(bound):
 		// reader still blocked after the bound: unblock it, keep what it had read
 		readerConn.Close()
@@ -380,6 +476,13 @@ type c03Wire struct {
 	Retransmits  int
 	LateData     int // data emissions later than 50 ms after Close() returned
 	CloseEmitted int
+	// loss recovery before the close request: the lowest lost sequence number, how often it had been
+	// transmitted when the first close request was emitted, and how many HIGHER sequence numbers were
+	// transmitted for the first time after its first transmission and before that close request
+	LostSeq, LostTx, LaterFirstTx int
+	LaterRetxMax                  int   // most transmissions, before the first close request, of one segment first sent after LostSeq
+	LostGapMs                     int64 // first close request emission minus first transmission of LostSeq
+	ReaderIdleMs                  int64 // reader's EOF minus the last datagram handed to its endpoint
 }
 
 func c03AnalyseUDP(k c03Case, o *c03Outcome) *c03Wire {
@@ -401,6 +504,9 @@ func c03AnalyseUDP(k c03Case, o *c03Outcome) *c03Wire {
 	handed := map[uint32]bool{}
 	closeHandedOrder := -1
 	maxSeq := -1
+	txBeforeClose := map[uint32]int{}
+	firstTxIdx := map[uint32]int{}
+	firstCloseIdx := -1
 	for i, d := range ds {
 		seg, err := wire.OpenUDP(d.Data, keys)
 		if err != nil {
@@ -412,8 +518,12 @@ func c03AnalyseUDP(k c03Case, o *c03Outcome) *c03Wire {
 			numbered := seg.IsData() || seg.Proto == wire.OpenSessionRequest || seg.Proto == wire.OpenSessionResponse
 			if numbered {
 				dg := c03Digest(seg)
+				if firstCloseIdx < 0 {
+					txBeforeClose[seg.Seq]++
+				}
 				if _, ok := first[seg.Seq]; !ok {
 					first[seg.Seq] = dg
+					firstTxIdx[seg.Seq] = i
 					lens[seg.Seq] = len(seg.Payload)
 					if int(seg.Seq) > maxSeq {
 						maxSeq = int(seg.Seq)
@@ -427,13 +537,42 @@ func c03AnalyseUDP(k c03Case, o *c03Outcome) *c03Wire {
 				items = append(items, item{ord, fmt.Sprintf("s:%d:%d", seg.Seq, dg)})
 			} else if seg.Proto == wire.CloseSessionRequest {
 				a.CloseEmitted++
-				items = append(items, item{ord, "cs"})
+				if firstCloseIdx < 0 {
+					firstCloseIdx = i
+				}
+				ms := int64(0)
+				if d.At > o.closeCallAt {
+					ms = (d.At - o.closeCallAt).Milliseconds()
+				}
+				items = append(items, item{ord, fmt.Sprintf("cs:%d", ms)})
 			}
 		} else if seg.IsData() || seg.IsAck() {
 			items = append(items, item{ord, fmt.Sprintf("a:%d", seg.UnAck)})
 		}
 	}
+	var lastToReader time.Duration
+	if os.Getenv("VH_DEBUG") != "" && k.Fault.Kind == "idle" {
+		for _, e := range evs {
+			if closing(e.To) && e.At > 2*time.Second {
+				if seg, err := wire.OpenUDP(e.Data, keys); err == nil {
+					fmt.Fprintf(os.Stderr, "c03idle to-reader at=%v proto=%d seq=%d unack=%d len=%d\n", e.At.Round(time.Millisecond), seg.Proto, seg.Seq, seg.UnAck, len(seg.Payload))
+				} else {
+					fmt.Fprintf(os.Stderr, "c03idle to-reader at=%v undecodable %v\n", e.At.Round(time.Millisecond), err)
+				}
+			}
+		}
+		for i, d := range ds {
+			if d.At > 2*time.Second {
+				if seg, err := wire.OpenUDP(d.Data, keys); err == nil {
+					fmt.Fprintf(os.Stderr, "c03idle emitted #%d at=%v %s->%s proto=%d seq=%d fate=%s\n", i, d.At.Round(time.Millisecond), d.From, d.To, seg.Proto, seg.Seq, d.Fate)
+				}
+			}
+		}
+	}
 	for _, e := range evs {
+		if closing(e.To) && e.At > lastToReader && (o.finalAt == 0 || e.At <= o.finalAt) {
+			lastToReader = e.At
+		}
 		seg, err := wire.OpenUDP(e.Data, keys)
 		if err != nil {
 			continue
@@ -491,6 +630,25 @@ func c03AnalyseUDP(k c03Case, o *c03Outcome) *c03Wire {
 			a.LostBefore = append(a.LostBefore, s)
 		}
 	}
+	a.LostSeq = -1
+	if len(a.LostBefore) > 0 && firstCloseIdx >= 0 {
+		a.LostSeq = a.LostBefore[0]
+		a.LostTx = txBeforeClose[uint32(a.LostSeq)]
+		a.LostGapMs = (ds[firstCloseIdx].At - ds[firstTxIdx[uint32(a.LostSeq)]].At).Milliseconds()
+		for sq, idx := range firstTxIdx {
+			if int(sq) > a.LostSeq && idx > firstTxIdx[uint32(a.LostSeq)] && idx < firstCloseIdx {
+				a.LaterFirstTx++
+				if txBeforeClose[sq] > a.LaterRetxMax {
+					a.LaterRetxMax = txBeforeClose[sq]
+				}
+			}
+		}
+	}
+	if o.Final == "EOF" && !a.CloseHanded && o.finalAt > 0 {
+		// the reader's session was closed although no close request / response ever reached it
+		a.ReaderIdleMs = (o.finalAt - lastToReader).Milliseconds()
+		a.Tokens = append(a.Tokens, fmt.Sprintf("lc:%d", a.ReaderIdleMs))
+	}
 	return a
 }
 
@@ -539,6 +697,54 @@ func c03Run(c *core.Ctx, k c03Case) {
 	if o.Final == "no-session" {
 		return
 	}
+	if k.Fault.Kind == "tcp-reset" {
+		resetPartial := o.Final == "EOF" && o.Got < o.Written // o.Written = what Write accepted
+		// Characterisation, not an oracle: C03 quantifies over datagram faults; a TCP connection that
+		// dies is outside it. What the reader of a session sees when its underlay dies is recorded.
+		outcome := "error"
+		switch {
+		case resetPartial:
+			outcome = "clean-eof-after-strict-prefix"
+		case o.Final == "EOF":
+			outcome = "clean-eof-after-all-data"
+		case o.Final == "blocked":
+			outcome = "blocked"
+		}
+		c.Hist("tcp_reset_reader_outcome", outcome)
+		c.Note("tcp-reset (outside C03's quantifier): %s n=%d, Write returned %d (err %q), connection reset after %d wire bytes of the closing direction: the peer application read %d bytes, final %q", dir, k.N, o.Written, o.WriteErr, k.Fault.Seq, o.Got, o.Final)
+		if c.Model != nil {
+			// a reset discards what the receiving underlay had not yet read: the reader's session got a
+			// prefix of the wire's items — the whole segments that make up the bytes it handed out
+			all, _ := c03AnalyseTCP(k, o)
+			var toks []string
+			sum := 0
+			for _, t := range all {
+				var l int
+				if _, err := fmt.Sscanf(t, "D:%d", &l); err != nil || sum+l > o.Got {
+					break
+				}
+				sum += l
+				toks = append(toks, t)
+			}
+			final := "err"
+			switch o.Final {
+			case "EOF":
+				final = "eof"
+			case "blocked":
+				final = "blocked"
+			}
+			c.Compared()
+			// `L`: the reader's session was closed locally (underlay torn down → graceful s.Close())
+			reply := c.Model.Ask("close-tcp %s L R:%d:%s:%d", strings.Join(toks, " "), o.Got, final, o.Written)
+			f := strings.Fields(reply)
+			if len(f) < 2 || f[0] != "ok" {
+				c.Disagree("C03/corr/tcp-history-rejected", "the close model rejects the observed history of a reset connection: "+reply, k)
+			} else if (f[1] == "1") != resetPartial {
+				c.Disagree("C03/corr/tcp-reader-outcome", fmt.Sprintf("model predicts partial-then-EOF=%v after the reset, the implementation showed %v (%s)", f[1] == "1", resetPartial, reply), k)
+			}
+		}
+		return
+	}
 	if o.WriteErr != "" || o.Written != k.N {
 		// the property is conditional on a successful Write
 		c.Hist("branch", "write-failed")
@@ -558,6 +764,23 @@ func c03Run(c *core.Ctx, k c03Case) {
 		detail := ""
 		if k.UDP {
 			switch {
+			case !wa.CloseHanded:
+				fk = "C03/udp/reader-closed-without-close-request"
+				if wa.ReaderIdleMs >= 59000 {
+					fk = "C03/udp/reader-idle-timeout-clean-eof"
+				}
+				detail = fmt.Sprintf("; no close request or response ever reached the reader's endpoint: its session was closed locally %d ms after the last datagram it was handed (idleSessionTimeout = 60 s → RemoveSession → graceful s.Close()), and Read reported a clean io.EOF", wa.ReaderIdleMs)
+			case k.Fault.Kind == "drop-inflight" && len(wa.LostBefore) > 0 && wa.LostTx <= 1 && (wa.LaterRetxMax >= 3 || wa.LaterFirstTx >= 16+wa.LostSeq+2 || wa.LostGapMs >= 900):
+				// Only in the dedicated case (fresh session, warmed-up path, the injected loss is the first
+				// one, so the sender is in slow start): (1) the congestion window is minWindowSize + one per
+				// acknowledged segment, so with segment s unacknowledged at most 15 + s later segments can be
+				// transmitted for the first time before s has been retransmitted and acknowledged;
+				// (2) retransmission timers run per segment from its own transmission time: a later segment
+				// cannot time out twice before the earlier, still unacknowledged one has timed out once;
+				// (3) on this path (round-trip samples well below a millisecond, retransmission timeout of
+				// tens of milliseconds) a segment that stays unacknowledged for 900 ms has timed out.
+				fk = "C03/udp/lost-data-not-retransmitted-while-sending"
+				detail = fmt.Sprintf("; segment %d was lost on its first transmission and never retransmitted before the close request went out, although %d later segments were transmitted for the first time in between (a sender with that segment in its send buffer stalls after at most %d) and one of them %d times; %d ms passed between its transmission and the close request (Close() took %v)", wa.LostSeq, wa.LaterFirstTx, 15+wa.LostSeq, wa.LaterRetxMax, wa.LostGapMs, o.closeTook.Round(time.Millisecond))
 			case len(wa.LostBefore) > 0:
 				fk = "C03/udp/data-lost-or-overtaken-before-close"
 				detail = fmt.Sprintf("; segments %v of the closing direction were transmitted but had not reached the reader when the close request did", wa.LostBefore)
@@ -600,6 +823,20 @@ func c03Run(c *core.Ctx, k c03Case) {
 			lens = strings.Join(ls, ",")
 		}
 		reply := c.Model.Ask("close-udp L:%s %s R:%d:%s", lens, strings.Join(wa.Tokens, " "), o.Got, final)
+		if os.Getenv("VH_DEBUG") != "" && (k.CloseAfterFault || k.Fault.Kind == "stall") {
+			if len(wa.LostBefore) > 0 {
+				k.Fault.Seq = wa.LostBefore[0]
+			}
+			var brief []string
+			for _, t := range wa.Tokens {
+				if t == "C" || t == "X" || strings.HasPrefix(t, "cs") || t == "cd" || strings.HasPrefix(t, fmt.Sprintf("s:%d:", k.Fault.Seq)) || strings.HasPrefix(t, fmt.Sprintf("d:%d:", k.Fault.Seq)) {
+					brief = append(brief, t)
+				} else if strings.HasPrefix(t, "s:") {
+					brief = append(brief, "s")
+				}
+			}
+			fmt.Fprintf(os.Stderr, "c03u %s n=%d fault=%+v closeTook=%v lost=%v tx=%d later=%d laterRetx=%d: %s -> %s\n", dir, k.N, k.Fault, o.closeTook.Round(time.Millisecond), wa.LostBefore, wa.LostTx, wa.LaterFirstTx, wa.LaterRetxMax, strings.Join(brief, " "), reply)
+		}
 		c03Compare(c, k, reply, violated, "udp")
 		if wa.LateData > 0 {
 			c.Disagree("C03/corr/data-transmitted-after-close-returned", fmt.Sprintf("%d data datagrams of the closed session were emitted more than 50 ms after Close() returned", wa.LateData), k)
@@ -619,6 +856,30 @@ func c03Run(c *core.Ctx, k c03Case) {
 		c.Compared()
 		reply := c.Model.Ask("close-tcp %s R:%d:%s:%d", strings.Join(toks, " "), o.Got, final, k.N)
 		c03Compare(c, k, reply, violated, "tcp")
+		// the writer's side: application calls and wire emissions with their times, through the
+		// writer acceptor (Model/CloseWriter.waccept; Props/C03.writer_history_sound)
+		wtoks, wproblems := c03WriterTokens(k, o)
+		for _, p := range wproblems {
+			c.Disagree("C03/corr/wire-undecodable", p, k)
+		}
+		c.Compared()
+		wreply := c.Model.Ask("close-tcpw %s", strings.Join(wtoks, " "))
+		if os.Getenv("VH_DEBUG") != "" {
+			fmt.Fprintf(os.Stderr, "c03w %s %s n=%d fault=%s closeTook=%v: %s -> %s\n", tr, dir, k.N, k.Fault.Kind, o.closeTook.Round(time.Millisecond), strings.Join(wtoks, " "), wreply)
+		}
+		wf := strings.Fields(wreply)
+		switch {
+		case len(wf) < 4 || wf[0] != "ok":
+			c.Disagree("C03/corr/tcp-writer-history-rejected", "the writer model rejects the observed history of Write / Close / wire emissions: "+wreply+" ("+strings.Join(wtoks, " ")+")", k)
+		case wf[1] == "1" && wf[2] != "1":
+			c.Disagree("C03/corr/tcp-writer-wire-order", "the writer acceptor stayed inside its scheduling assumption but the wire is not `fragments, close request, …` — contradicts Props/C03.writer_history_sound: "+wreply, k)
+		case wf[1] != "1":
+			c.Hist("model_assumption_broken", "sched")
+			c.Disagree("C03/corr/tcp-forced-close-overtook-queued-data", "the close request was written directly (bounded wait expired) while data of the session was still queued; with oLock held across the whole drain (Props/C03.close_lock_scope) that needs an output loop that did not run for the whole wait: "+wreply+" ("+strings.Join(wtoks, " ")+")", k)
+		}
+		if o.tap != nil && k.Fault.Kind == "tcp-stall" && !o.tap.stalledOnce.Load() {
+			c.Hist("branch", "tcp-stall-never-blocked")
+		}
 	}
 }
 
@@ -633,7 +894,7 @@ func c03Compare(c *core.Ctx, k c03Case, reply string, violated bool, tr string) 
 	if tr == "udp" && len(f) >= 4 {
 		// udp_close_partial: inside both assumptions the model cannot show a partial EOF
 		if violated && f[2] == "1" && f[3] == "1" {
-			c.Disagree("C03/corr/udp-partial-eof-inside-assumptions", "the implementation showed a strict prefix followed by EOF although the replayed history stayed inside both assumptions of udp_close_partial (ordered, patient): "+reply, k)
+			c.Disagree("C03/corr/udp-partial-eof-inside-assumptions", "the implementation showed a strict prefix followed by EOF although the replayed history stayed inside the three assumptions of udp_close_partial (ordered, patient, kept) — contradicts Props/C03.accepted_history_sound: "+reply, k)
 		}
 		if f[2] == "0" {
 			c.Hist("model_assumption_broken", "ordered")
@@ -689,7 +950,7 @@ func c03FragmentSize(mtu int, udp bool) int {
 
 func genC03(r *rand.Rand, thorough bool) []c03Case {
 	var cases []c03Case
-	mk := func(udp, serverCloses bool, n int, f c03Fault) {
+	mk := func(udp, serverCloses bool, n int, f c03Fault) *c03Case {
 		k := c03Case{Seed: r.Int63(), UDP: udp, MTU: 1400, N: n, ServerCloses: serverCloses, Fault: f,
 			MaxRead: []int{1, 13, 1500, 65536}[r.Intn(4)], BoundMs: 20000}
 		if udp {
@@ -703,6 +964,7 @@ func genC03(r *rand.Rand, thorough bool) []c03Case {
 			k.ServerPattern = patJSON(sim.RandomPattern(r, false))
 		}
 		cases = append(cases, k)
+		return &cases[len(cases)-1]
 	}
 	for _, udp := range []bool{false, true} {
 		frag := c03FragmentSize(1400, udp)
@@ -719,8 +981,51 @@ func genC03(r *rand.Rand, thorough bool) []c03Case {
 			}
 		}
 	}
-	// fault plans over the datagrams in flight at close (UDP)
-	reps := 1
+	// fault plans over the datagrams in flight at close (UDP). Deterministic boundaries first (every run):
+	// the first data-bearing sequence number, the second, the last but one and the last, for each of
+	// drop / delay (overtaken by the close request) / duplicate, in both directions.
+	for _, sc := range []bool{false, true} {
+		n := 10240
+		nseg := (n-1)/c03FragmentSize(1400, true) + 1 // data segments; seq 0 is the open request / response
+		for _, kind := range []string{"drop-data", "delay-data", "dup-data"} {
+			for _, seq := range []int{1, 2, nseg - 1, nseg} {
+				k := mk(true, sc, n, c03Fault{Kind: kind, Seq: seq, DelayMs: 60})
+				k.MTU = 1400
+			}
+		}
+		mk(true, sc, n, c03Fault{Kind: "delay-close", DelayMs: 60})
+		mk(true, sc, n, c03Fault{Kind: "dup-close"})
+		mk(true, sc, n, c03Fault{Kind: "drop-close"})
+		mk(true, sc, n, c03Fault{Kind: "drop-data+drop-close", Seq: nseg})
+		// Two cases on a path that has round-trip samples (two fragments written and acknowledged first)
+		// with the last Write one full chunk (26 fragments — more than the congestion window of 16 + 3
+		// lets out at once, so part of it is still queued, with the close request behind it, at Close):
+		// (a) the first datagram of that chunk is lost in flight — the sender must retransmit it before
+		// its window lets the rest and the close request out; (b) a 600 ms delay spike starts with that
+		// Write, shorter than Close's bounded wait.
+		warm := 2 * c03FragmentSize(1400, true)
+		k := mk(true, sc, warm+32768, c03Fault{Kind: "drop-inflight"})
+		k.MTU, k.Warm, k.CloseAfterFault, k.MaxRead, k.ClientPattern, k.ServerPattern = 1400, warm, true, 65536, nil, nil
+		k = mk(true, sc, warm+32768, c03Fault{Kind: "stall", DelayMs: 600})
+		k.MTU, k.Warm, k.MaxRead, k.ClientPattern, k.ServerPattern = 1400, warm, 65536, nil, nil
+	}
+	// stream transport: the connection makes no progress until well after the bounded wait of Close() with the open request / response and the data still unsent; 1025 = smallest write that
+	// is not piggybacked on the open request, 32768 = one full segment (a second chunk would make Write
+	// itself wait for oLock until the stall is over)
+	for _, sc := range []bool{false, true} {
+		for _, n := range []int{1025, 20000, 32768} {
+			k := mk(false, sc, n, c03Fault{Kind: "tcp-stall", DelayMs: 500})
+			k.ClientPattern, k.ServerPattern = nil, nil
+		}
+	}
+	// characterisation (not an oracle): the TCP connection is reset while the tail is on its way
+	for _, sc := range []bool{false, true} {
+		// two chunks (32768 + 7232): Write returns as soon as the second one is being written; the write
+		// that carries it crosses the mark, is held for 100 ms, and the connection is reset meanwhile
+		k := mk(false, sc, 40000, c03Fault{Kind: "tcp-reset", Seq: 36000})
+		k.ClientPattern, k.ServerPattern, k.MaxRead = nil, nil, 65536
+	}
+	reps := 0
 	if thorough {
 		reps = 6
 	}
@@ -736,17 +1041,23 @@ func genC03(r *rand.Rand, thorough bool) []c03Case {
 				mk(true, sc, n, c03Fault{Kind: "dup-close"})
 			}
 			mk(true, sc, 10240, c03Fault{Kind: "drop-close"})
-			if thorough || rep == 0 && !sc {
-				mk(true, sc, 10240, c03Fault{Kind: "drop-data+drop-close", Seq: 2 + r.Intn(5)})
-			}
+			mk(true, sc, 10240, c03Fault{Kind: "drop-data+drop-close", Seq: 2 + r.Intn(5)})
 		}
 	}
+	// (The `idle` plan — tail and every close request lost for ever, the reader's session closed locally
+	// after idleSessionTimeout — is not generated here: it is corpus/C03/thorough/udp-reader-idle-timeout.json,
+	// a known finding that takes 80–190 s and runs in the thorough tier only.)
 	return cases
 }
 
 func c03LoadCorpus(c *core.Ctx) []c03Case {
 	var out []c03Case
 	files, _ := filepath.Glob(filepath.Join(c.Corpus, "*.json"))
+	if c.Thorough() {
+		// replays that take minutes (the idle timeout is a 60 s constant of the code) run in thorough only
+		more, _ := filepath.Glob(filepath.Join(c.Corpus, "thorough", "*.json"))
+		files = append(files, more...)
+	}
 	sort.Strings(files)
 	for _, f := range files {
 		raw, err := os.ReadFile(f)
@@ -770,7 +1081,7 @@ func c03LoadCorpus(c *core.Ctx) []c03Case {
 func init() {
 	core.Register("C03", &core.Scenario{
 		Run: func(c *core.Ctx) {
-			c.Res.Rule = "each case: one transport (TCP / UDP with MTU from {1280,1281,1400,1499,1500}), one direction (client closes / server closes), d of n bytes with n in {1, 1024, one fragment -1/0/+1, 10 KiB, 32 KiB(+1) on TCP, 1 MiB (thorough)}, optional random traffic patterns, the application writes d and calls Close immediately, the peer reads with random read sizes until EOF / error / 20 s bound; UDP fault plans address the datagrams in flight at close: first transmission of one data segment dropped / delayed (overtaken by the close request) / duplicated, close request delayed / duplicated / dropped, data dropped and close dropped; corpus replays first. Oracle: bytes read = d or the final error is not io.EOF (reader still blocked at the bound is counted separately). Distinct = distinct case JSON."
+			c.Res.Rule = "each case: one transport (TCP / UDP with MTU from {1280,1281,1400,1499,1500}), one direction (client closes / server closes), d of n bytes with n in {1, 1024, one fragment -1/0/+1, 10 KiB, 32 KiB(+1) on TCP, 1 MiB (thorough)}, optional random traffic patterns, the application writes d and calls Close immediately, the peer reads with random read sizes until EOF / error / 20 s bound; UDP fault plans address the datagrams in flight at close, deterministically on every run: first transmission of data segment 1 / 2 / last-1 / last dropped / delayed (overtaken by the close request) / duplicated, close request delayed / duplicated / dropped, data dropped and close dropped, on a warmed-up path with a last Write larger than the congestion window: its first datagram lost in flight at Close, and a 600 ms delay spike starting with that Write; TCP: the closing direction stalled until well after the bounded wait of Close (1500 x 1 ms + 0.5 s) with open request/response and data unsent (n = 1025, 20000, 32768); thorough: random positions, 1 MiB; one TCP reset case per direction as a characterisation (not an oracle); corpus replays first. Oracle: bytes read = d or the final error is not io.EOF (reader still blocked at the bound is counted separately). Distinct = distinct case JSON."
 			c.Correspondence("observed close histories (application calls, every datagram / stream segment decoded by harness/wire) accepted by the Lean close model (close-udp / close-tcp) and reader outcome predicted by it")
 			var cases []c03Case
 			cases = append(cases, c03LoadCorpus(c)...)
